@@ -280,12 +280,15 @@ def einstein_target(e):
     return tg
 
 
-def judge(ctx, r, what, rep):
+KNOWN_T22 = "factor_intermediates:t2_2-definition-in-t2_1-with-both-occupied-indices-contracted"
+
+
+def judge(ctx, r, what, rep, key=None):
     if isinstance(r, dict):
         ctx.notes.append("rejected at: " + what[:80])
         rep = dict(rep, **{k: r[k] for k in ("lean", "numeric", "e1", "e2")})
         if r["numeric"] is not None:
-            ctx.violation(what, rep)
+            ctx.violation(what, rep, key=key)
         else:
             ctx.skip("validator_inconclusive")
             ctx.notes.append("inconclusive: " + str(rep.get("expr"))[:300] + " || " + str(rep.get("lean")))
@@ -497,6 +500,24 @@ def mixed_grid_inputs(ctx, names):
                 yield name, idx, f"mixed-grid: term {k} x prefactor", full, sympy.Add(*t2)
 
 
+def split_names(idx):
+    from adcgen.indices import split_idx_string
+    return split_idx_string(idx)
+
+
+def known_probe_input():
+    """deterministic probe of the recorded finding: the definition of t2_2 in terms of t2_1, both occupied indices of the
+    intermediate contracted with an integral that is antisymmetric in them"""
+    from adcgen import Intermediates
+    from adcgen.sympy_objects import AntiSymmetricTensor
+    from adcgen.indices import get_symbols
+    it = Intermediates().available["t2_2"]
+    body = dist_num(it.expand_itmd(indices="mkab", fully_expand=False).sympy)
+    k, m, j, c = get_symbols("kmjc")
+    rem = AntiSymmetricTensor("V", (k, m), (j, c))
+    return "t2_2", "mkab", "probe:known-finding", False, sympy.Add(*[t * rem for t in sympy.Add.make_args(body)])
+
+
 def check_factor(ctx, defs):
     from adcgen import Intermediates, Expr, factor_intermediates
     rng = ctx.rng
@@ -505,6 +526,7 @@ def check_factor(ctx, defs):
     quick_names = ["t2_1", "t1_2", "t2_2", "p0_2_oo", "p0_2_vv", "t2eri_3", "t2eri_5", "t2sq", "t2eri_1", "t2eri_6"]
     grid = list(grid_inputs(ctx, ["t2_1", "t2eri_3", "t2sq"] if ctx.quick() else FACTORABLE))
     grid += list(mixed_grid_inputs(ctx, ["t2_2"] if ctx.quick() else ["t2_2", "t1_2", "p0_2_oo", "p0_2_vv"]))
+    grid.insert(0, known_probe_input())
     t_end = time.time() + ctx.pick(150, 1500)
     for it in range(n + len(grid)):
         if time.time() > t_end:
@@ -531,6 +553,9 @@ def check_factor(ctx, defs):
         if mode.startswith("mixed-grid"):
             req = "with-t2_1"
             tn, mo = ["t2_1", name], None
+        elif mode.startswith("probe:"):
+            req = "probe"
+            tn, mo = "t_amplitude", 2
         elif req == "name":
             tn, mo = name, None
         elif req == "list":
@@ -591,7 +616,9 @@ def check_factor(ctx, defs):
             ctx.sample({"built_from": name, "mode": mode, "requested": str(tn), "max_order": mo, "found": found,
                         "output": str(out)[:200]})
         r = ctx.equiv(defs.nf(r_in, rep), defs.nf(r_out, rep), "factor_intermediates")
-        judge(ctx, r, "factor_intermediates changed the value (intermediates taken as their registered definitions)", rep)
+        occ_contracted = all(nm not in {t_.name for t_ in target} for nm in split_names(idx)[:2])
+        known = KNOWN_T22 if (name == "t2_2" and not full and occ_contracted and not mode.startswith("mixed")) else None
+        judge(ctx, r, "factor_intermediates changed the value (intermediates taken as their registered definitions)", rep, key=known)
 
 
 # ------------------------------------------------------------------ (C) reduce_expr
